@@ -3,6 +3,7 @@ CONSTANTS
   Names = {"a", "b"}
   BaseLens = {0, 1}
   Align = {20, 48}
+  EndAlign = {20, 48}
   MaxOps = 7
   MaxFiles = 3
   Srcs = {"exact"}
